@@ -103,7 +103,7 @@ def run_state(ctx, st, reqs):
         L.apply_op(rig, {"type": "deposit", "amount": Decimal(st["move"])})
     if not st["open"]:
         from demeter.deribit import DeribitMarketStatus
-        m.set_market_status(DeribitMarketStatus(timestamp=L.ts_of(st["minute"]), data=m.market_status.data), price=m._price_status)
+        m.set_market_status(DeribitMarketStatus(timestamp=L.ts_of(st["minute"]), data=m.market_status.data), price=L.market_prices(m))
         m.is_open = False
     if st["cache"] == "stale-deposit":
         L.apply_op(rig, {"type": "deposit", "amount": Decimal(st["move"])})
